@@ -245,3 +245,118 @@ class StepInterp(Interp):
         if s.id == self.target.id:
             raise AnalysisBroken('member loop is a do-while: not modelled')
         return Interp.exec_do(self, s, env)
+
+
+class IterInterp(Interp):
+    """Engine I where the loops named in `deep` (node ids) get `deep_limit` generic iterations and
+    every other loop `loop_limit`: a property of the 2nd pass through one loop (state that survives
+    an iteration) is explored without squaring the paths of all the other loops.
+    `deadline` (time.time() value) caps an exploration: AnalysisBroken, i.e. undecided, never a hang"""
+    deep = frozenset()
+    deep_limit = 2
+    deadline = None
+
+    def _with_limit(self, s, f, *a):
+        if self.deadline is not None:
+            import time
+            if time.time() > self.deadline:
+                raise AnalysisBroken('exploration budget exceeded at %s:%d' % (self.unit.name, s.line))
+        old = self.loop_limit
+        self.loop_limit = self.deep_limit if s.id in self.deep else old
+        try:
+            return f(self, *a)
+        finally:
+            self.loop_limit = old
+
+    def exec_loop(self, s, _u, cond, inc, body, env):
+        return self._with_limit(s, Interp.exec_loop, s, _u, cond, inc, body, env)
+
+    def exec_do(self, s, env):
+        return self._with_limit(s, Interp.exec_do, s, env)
+
+
+def enclosing_loops(node, root):
+    """ids of the loops of `root` that contain `node`"""
+    out = set()
+    for a in node.ancestors():
+        if a is root:
+            break
+        if a.kind in ('ForStmt', 'WhileStmt', 'DoStmt'):
+            out.add(a.id)
+    return out
+
+
+def generic_args(u, fname, ref_types=('Token **',)):
+    """argument builder for Interp.explore: out-parameters become places, pointers to records lazy objects"""
+    from .interp import _Ref, _ValPlace
+    params = u.params(fname)
+
+    def mk(ctx):
+        out = []
+        for p in params:
+            t = ' '.join((p.type or '').split())
+            if t in ref_types:
+                out.append(_Ref(_ValPlace(0)))
+            elif t.endswith('*') and t[:-1].replace('struct ', '').strip() in u.records:
+                out.append(Obj(t[:-1].replace('struct ', '').strip(), lazy=True, label=p.name))
+            else:
+                out.append(Sym('arg.' + (p.name or '?')))
+        return out
+    return mk
+
+
+def may_write_through(u, fname, pidx, _seen=None):
+    """may function `fname` (of unit u) modify the object its pidx-th parameter points to?
+    False only when every use of the parameter is a null test, a read of one of its fields, or an
+    argument of a call for which the same holds; anything else (unknown callee, store through it,
+    address of a field, copy into another variable) answers True."""
+    _seen = _seen if _seen is not None else set()
+    if (fname, pidx) in _seen:
+        return False            # recursion: judged by the other uses
+    _seen.add((fname, pidx))
+    fn = u.fn(fname)
+    if fn is None:
+        return True
+    ps = [c for c in fn.inner if c.kind == 'ParmVarDecl']
+    if pidx >= len(ps):
+        return True
+    pid = ps[pidx].id
+    for n in fn.walk():
+        if n.kind != 'DeclRefExpr' or n.ref_id != pid:
+            continue
+        x = n
+        par = x.parent
+        while par is not None and par.kind in ('ImplicitCastExpr', 'ParenExpr'):
+            x, par = par, par.parent
+        if par is None:
+            return True
+        if par.kind == 'MemberExpr':
+            # attr->f : a write if it is the target of an assignment / ++ / & , possibly through parens
+            y, q = par, par.parent
+            while q is not None and q.kind == 'ParenExpr':
+                y, q = q, q.parent
+            if q is None:
+                return True
+            if q.kind in ('BinaryOperator', 'CompoundAssignOperator') and (q.kind == 'CompoundAssignOperator' or q.opcode == '=') and q.inner[0] is y:
+                return True
+            if q.kind == 'UnaryOperator' and q.opcode in ('++', '--', '&'):
+                return True
+            if q.kind == 'MemberExpr' or q.kind == 'ArraySubscriptExpr':
+                return True     # nested aggregate: not modelled
+            continue
+        if par.kind == 'UnaryOperator' and par.opcode == '!':
+            continue
+        if par.kind == 'BinaryOperator' and par.opcode in ('&&', '||', '==', '!='):
+            continue
+        if par.kind in ('IfStmt', 'ConditionalOperator', 'WhileStmt', 'ForStmt') and par.inner and par.inner[0] is x:
+            continue
+        if par.kind == 'CallExpr':
+            args = par.args()
+            idx = [i for i, a in enumerate(args) if a is x]
+            if not idx or par.callee() is None:
+                return True
+            if may_write_through(u, par.callee(), idx[0], _seen):
+                return True
+            continue
+        return True
+    return False
